@@ -1,4 +1,4 @@
-import NA.Proofs.C04Policy
+import NA.Proofs.C04Frame
 /-!
 # C04 — NSX approve converges to the Netspoc-equivalent gateway policies
 (and the NSX theorems of C07 / C08 / C10, names prefixed `nsx_`)
@@ -86,8 +86,99 @@ theorem nsx_ids_unique_counterexample : ¬ (renameIdsOld ["x"] ["x", "x-1"]).Nod
 
 example : renameIds ["x"] ["x", "x-1"] (["x"] ++ ["x", "x-1"]) = some ["x-2", "x-1"] := by decide
 
-def obligations : List Lean.Name := [``nsx_group_equalize_converges, ``nsx_rules_converge,
+/-- **End to end** (`diffConfig` on what `LoadDevice` sees, executed on the strict manager).
+For every manager state `S` (objects outside Netspoc's scope included) and every target `T` that
+satisfy the decidable side conditions `accepted S T` — well-formed store, address lists without
+duplicates, target as the compiler and `checkRaw` guarantee it, objects outside Netspoc's scope
+that the target names exist, no rule outside Netspoc's scope refers to a managed object — for
+every `diff` that returns valid edit scripts, and whenever the planner does not abort:
+
+* every emitted REST call is accepted when it is sent (C08 for NSX: `run … = some S'`),
+* `Converged`: every target policy is on the manager with, up to listing order, one equivalent
+  rule per target rule (groups compared by address set), and every managed policy left is a
+  target policy,
+* `ServicesConverged`: every target service carries the target's definition and no managed
+  service is left that the target does not define,
+* `NoLeftoverGroup`: every managed group left is used by a rule of a target policy. -/
+theorem nsx_converges (diff : Diff) (hdiff : ∀ n m eq, validScript n m eq (diff n m eq) = true)
+    (S : Store) (T : Config) (hacc : accepted S T = true) (hab : (plan diff (load S) T).abort = none) :
+    ∃ S', run S (plan diff (load S) T).calls = some S' ∧ Converged S' T ∧ ServicesConverged S' T ∧
+      NoLeftoverGroup S' T := by
+  unfold accepted at hacc
+  simp only [Bool.and_eq_true] at hacc
+  obtain ⟨⟨⟨⟨⟨⟨h1, h2⟩, h3⟩, h4⟩, h5⟩, h6⟩, _⟩ := hacc
+  exact plan_converges hdiff (storeFacts_of h1 h2) (targetFacts_of h3 h4) h5 h6 hab
+
+/-- C08 for NSX: every call of the script is accepted by a manager that enforces referential
+integrity and create-only PUT. -/
+theorem nsx_calls_executable (diff : Diff) (hdiff : ∀ n m eq, validScript n m eq (diff n m eq) = true)
+    (S : Store) (T : Config) (hacc : accepted S T = true) (hab : (plan diff (load S) T).abort = none) :
+    (run S (plan diff (load S) T).calls).isSome = true := by
+  obtain ⟨S', h, _⟩ := nsx_converges diff hdiff S T hacc hab
+  simp [h]
+
+theorem nsx_no_leftover_service (diff : Diff) (hdiff : ∀ n m eq, validScript n m eq (diff n m eq) = true)
+    (S : Store) (T : Config) (hacc : accepted S T = true) (hab : (plan diff (load S) T).abort = none) :
+    ∃ S', run S (plan diff (load S) T).calls = some S' ∧ ServicesConverged S' T := by
+  obtain ⟨S', h, _, h2, _⟩ := nsx_converges diff hdiff S T hacc hab
+  exact ⟨S', h, h2⟩
+
+theorem nsx_no_leftover_unused_group (diff : Diff) (hdiff : ∀ n m eq, validScript n m eq (diff n m eq) = true)
+    (S : Store) (T : Config) (hacc : accepted S T = true) (hab : (plan diff (load S) T).abort = none) :
+    ∃ S', run S (plan diff (load S) T).calls = some S' ∧ NoLeftoverGroup S' T := by
+  obtain ⟨S', h, _, _, h3⟩ := nsx_converges diff hdiff S T hacc hab
+  exact ⟨S', h, h3⟩
+
+/-! Non-vacuity of `nsx_converges`: an accepted pair with a group to edit, a rule to re-create,
+a service to patch and left-overs to delete; the plan does not abort. -/
+def exStore : Store :=
+  { policies := [⟨"Netspoc-v1", [{ id := "r1", src := groupPath "Netspoc-g0", service := servicePath "Netspoc-tcp_80" },
+                               { id := "r2", dst := "10.1.1.1" }]⟩,
+                 ⟨"admin", [{ id := "m1", src := groupPath "ext" }]⟩]
+    groups := [⟨"Netspoc-g0", "id", "IPAddressExpression", ["10.1.1.10", "10.1.1.20"]⟩,
+               ⟨"Netspoc-g5", "id", "IPAddressExpression", ["10.9.9.9"]⟩, ⟨"ext", "x", "IPAddressExpression", ["1.1.1.1"]⟩]
+    services := [⟨"Netspoc-tcp_80", "a"⟩, ⟨"Netspoc-udp_1", "u"⟩] }
+def exTarget : Config :=
+  { policies := [⟨"Netspoc-v1", [{ id := "r1", src := groupPath "Netspoc-g0", service := servicePath "Netspoc-tcp_80" },
+                               { id := "r2", dst := "10.1.1.2" }]⟩]
+    groups := [⟨"Netspoc-g0", "id", "IPAddressExpression", ["10.1.1.10", "10.1.1.30"]⟩]
+    services := [⟨"Netspoc-tcp_80", "b"⟩] }
+example : accepted exStore exTarget = true := by decide
+example : (plan trivialDiff (load exStore) exTarget).abort = none := by decide
+example : (plan trivialDiff (load exStore) exTarget).calls.length = 9 := by decide
+
+/-- C07 for NSX, the script (`nsx_scope`): every REST call addresses an object whose id carries
+the Netspoc prefix (rules live inside their policy) — by the load filter on the device side and
+`checkRaw` / the compiler on the target side. -/
+theorem nsx_scope (diff : Diff) (S : Store) (T : Config) (h1 : storeWF S = true) (h2 : addrsNodup S = true)
+    (h3 : targetWF T = true) (h4 : policyIdsManaged T = true) :
+    ∀ c ∈ (plan diff (load S) T).calls, managed c.target = true :=
+  plan_scope (storeFacts_of h1 h2) (targetFacts_of h3 h4)
+
+/-- C07 for NSX, the manager (about the specification alone): a call that addresses a managed id
+leaves every object outside Netspoc's scope exactly as it was. -/
+theorem nsx_store_frame {S S' : Store} {c : Call} (hm : managed c.target = true) (h : exec S c = .ok S') :
+    unmanagedPart S' = unmanagedPart S := exec_frame hm h
+
+/-- C07 for NSX, combined: whatever prefix of the script is executed, policies, groups and
+services whose id lacks the prefix are untouched. -/
+theorem nsx_frame (diff : Diff) (S : Store) (T : Config) (h1 : storeWF S = true) (h2 : addrsNodup S = true)
+    (h3 : targetWF T = true) (h4 : policyIdsManaged T = true) (k : Nat) (S' : Store)
+    (hrun : run S ((plan diff (load S) T).calls.take k) = some S') :
+    unmanagedPart S' = unmanagedPart S :=
+  run_frame _ S S' (fun c hc => nsx_scope diff S T h1 h2 h3 h4 c (List.mem_of_mem_take hc)) hrun
+
+/-- The raw-file gap (before the repair a3659de): a target policy whose id lacks the prefix is
+outside the hypothesis of `nsx_scope`, and indeed the plan then addresses an unmanaged id. -/
+theorem nsx_scope_counterexample :
+    ¬ ∀ c ∈ (plan trivialDiff (load {}) { policies := [⟨"my-policy", []⟩] }).calls, managed c.target = true := by
+  decide
+
+def obligations : List Lean.Name := [``nsx_converges, ``nsx_calls_executable, ``nsx_no_leftover_service,
+  ``nsx_no_leftover_unused_group, ``nsx_group_equalize_converges, ``nsx_rules_converge,
   ``nsx_create_policy_converges, ``nsx_ids_unique, ``nsx_ids_unique_counterexample,
-  ``addrDiff_perm, ``stepItems_spec, ``walk_of_valid, ``adaptGroup_spec, ``equalize_spec]
+  ``addrDiff_perm, ``stepItems_spec, ``walk_of_valid, ``adaptGroup_spec, ``equalize_spec,
+  ``overA_spec, ``overB_spec, ``planSvc_spec, ``plan_converges, ``nsx_scope, ``nsx_store_frame, ``nsx_frame,
+  ``nsx_scope_counterexample]
 
 end NA.Nsx
